@@ -162,6 +162,12 @@ def run(chk, ctx):
                     if hi is None:
                         bad.append('unbounded view %s' % T.show(t)[:80])
                         continue
+                    if (isinstance(hi, int) and hi < 0) or \
+                            (isinstance(lo, int) and lo < 0):
+                        bad.append('view %s is measured from the end of the '
+                                   'buffer, not of the frame' %
+                                   T.show(t)[:80])
+                        continue
                     d = T.sub(r.n, hi)
                     lo_b = kn.lin_interval(d)[0] if not isinstance(d, int) \
                         else d
